@@ -104,6 +104,13 @@ func body(s *simrt.Sim, tier string) {
 		bops = append(bops, l)
 	}
 
+	// With at most 10 values in all, every subscriber's 10-slot buffer can hold whatever it does not read:
+	// in such runs stalled readers may stay stalled for good ("hard stall") and still no Broadcast,
+	// cancellation or Close may wait for them.
+	hardStall := nval <= 10 && s.Choose(2, "hardstall") == 0
+	// a stalled reader whose context ends has left: half of the time it never reads again
+	deadAfterCancel := s.Choose(2, "deadAfterCancel") == 0
+
 	b := broadcaster.New[int]()
 	var resume atomic.Bool
 	var closeInvoke, closeReturn atomic.Uint64
@@ -133,7 +140,10 @@ func body(s *simrt.Sim, tier string) {
 				sb.subReturn = s.Stamp()
 			}
 			if sb.mode == 2 {
-				s.WaitUntil("stalled", 0, func() bool { return resume.Load() })
+				s.WaitUntil("stalled", 0, func() bool { return resume.Load() || sb.stop.Load() })
+				if sb.willCancel && deadAfterCancel {
+					return
+				}
 			}
 			for !sb.stop.Load() {
 				var v int
@@ -220,6 +230,10 @@ func body(s *simrt.Sim, tier string) {
 		}
 	}
 	if !s.Join(100*time.Millisecond, workNames...) {
+		if hardStall {
+			s.Fail("deadlock", "Broadcast / Close / cancel did not return although no subscriber ever had more than 10 values outstanding (stalled readers must not be waited for)\n"+s.Dump())
+			return
+		}
 		resume.Store(true)
 		s.Fault("subscriber.stall")
 		if !s.Join(20*time.Second, workNames...) {
@@ -227,7 +241,11 @@ func body(s *simrt.Sim, tier string) {
 			return
 		}
 	}
-	resume.Store(true)
+	if !hardStall {
+		resume.Store(true)
+	} else {
+		s.Fault("subscriber.hardstall")
+	}
 	s.Sleep(2 * time.Second) // drain
 
 	// ---- oracles
@@ -253,7 +271,7 @@ func body(s *simrt.Sim, tier string) {
 				}
 			}
 		}
-		if sb.willCancel || sb.subReturn == 0 || closeRace {
+		if sb.willCancel || sb.subReturn == 0 || closeRace || (hardStall && sb.mode == 2) {
 			continue
 		}
 		for _, c := range calls {
@@ -287,7 +305,7 @@ func body(s *simrt.Sim, tier string) {
 		s.Go("closer", doClose)
 		s.Go("closer2", doClose)
 		if !s.Join(20*time.Second, "closer", "closer2") {
-			s.Fail("close-deadlock", "Close did not return although no subscriber is stalled any more\n"+s.Dump())
+			s.Fail("close-deadlock", fmt.Sprintf("Close did not return (hard stall: %v; otherwise no subscriber is stalled any more)\n", hardStall)+s.Dump())
 			return
 		}
 	}
